@@ -95,8 +95,11 @@ CaseSet ==
     \cup { [space |-> "index", items |-> SetToSeq(EP2Items)] }
 ASSUME ndJsonSerialize(CasesFile, SetToSeq(CaseSet))
 
-(* The algorithm-level keys pass the very judge leg C applies to the real keys, on exactly the *)
-(* groups handed to the harness (unless the legacy builders are selected).                     *)
-GroupsJudgedOK == \A c \in CaseSet : KeysSeparate(c.items, [x \in DOMAIN c.items |-> Key(c.items[x], Legacy)])
+(* The algorithm-level keys pass the very judge leg C applies to the real keys (KeysSeparate), *)
+(* on the conversion-cache groups and one index group handed to the harness.  (For all groups   *)
+(* this follows from AllSeparate, the groups being subsets of Items; evaluating the operator on  *)
+(* some of them links the two formulations.)                                                    *)
+JudgedGroups == { c \in CaseSet : c.space = "conv" } \cup { CHOOSE c \in CaseSet : c.space = "index" }
+GroupsJudgedOK == \A c \in JudgedGroups : KeysSeparate(c.items, [x \in DOMAIN c.items |-> Key(c.items[x], Legacy)])
 ASSUME Legacy \/ GroupsJudgedOK
 =============================================================================
